@@ -25,6 +25,7 @@ import EinxModel.Driver.Reject
 import EinxModel.Driver.OptDag
 import EinxModel.Driver.Lower
 import EinxModel.Driver.Xlate
+import EinxModel.Driver.Exec
 /-! Line-protocol driver: one JSON request per input line, one JSON answer per output line. -/
 open Lean Einx.Driver
 
@@ -56,6 +57,7 @@ def dispatch (j : Json) : R Json := do
   | "optdag" => Einx.Driver.OptDag.handle j
   | "lower_model" => Einx.Driver.Lower.handle j
   | "xlate_stb" | "xlate_diag" | "xlate_ids" | "xlate_unravel" | "py_prelude" => Einx.Driver.Xlate.handle j
+  | "exec_check" => Einx.Driver.Exec.handle j
   | "update_denote" | "update_lower" | "update_get" | "update_addr" | "np_put" | "np_ufunc_at" | "assignments" =>
     Einx.Driver.Update.handle j
   | k => throw s!"unknown kind {k}"
